@@ -499,6 +499,25 @@ func (cl *vkCluster) write(node int, db string, pts []models.Point) error {
 	return cl.nodes[node].srv.PointsWriter.WritePointsPrivileged(db, "rp", models.ConsistencyLevelAll, pts)
 }
 
+// vkIsTimeout: the error text of a request that ran into one of the cluster's internal timeouts (never a
+// correctness signal: such requests are retried, and a repeated timeout makes the case inconclusive).
+func vkIsTimeout(e string) bool {
+	return e != "" && (strings.Contains(e, "timeout") || strings.Contains(e, "deadline"))
+}
+
+// writeRP writes into a named retention policy at consistency all, repeating the idempotent write a few times
+// (a failure with every node up can only be a timeout of the loaded machine).
+func (cl *vkCluster) writeRP(node int, db, rp string, pts []models.Point) error {
+	var err error
+	for try := 0; try < 6; try++ {
+		if err = cl.nodes[node].srv.PointsWriter.WritePointsPrivileged(db, rp, models.ConsistencyLevelAll, pts); err == nil {
+			return nil
+		}
+		time.Sleep(time.Duration(200*(try+1)) * time.Millisecond)
+	}
+	return err
+}
+
 // writeAllUp is write for the set-up phase of a case, when every node is up and no fault is injected: a
 // failure there can only be a timeout of the loaded machine (the cluster's internal timeouts are 2 s),
 // so the idempotent write is repeated a few times before the bed gives up.
@@ -598,6 +617,10 @@ func vkMkdirTemp(prefix string) string {
 	return d
 }
 
+// vkReaderTimeout is the shard reader timeout of the shared cluster; a test that wants another value sets it
+// before its first call to vkSharedCluster (every test runs in a process of its own).
+var vkReaderTimeout = 2 * time.Second
+
 var (
 	vkOnce    sync.Once
 	vkShared  *vkCluster
@@ -608,7 +631,7 @@ var (
 func vkSharedCluster() (*vkCluster, error) {
 	vkOnce.Do(func() {
 		dir := vkMkdirTemp("bedK")
-		vkShared, vkErr = vkStartCluster(dir, 3, 2*time.Second)
+		vkShared, vkErr = vkStartCluster(dir, 3, vkReaderTimeout)
 	})
 	return vkShared, vkErr
 }
